@@ -17,6 +17,7 @@ pub mod rangegen;
 pub mod enumcase;
 pub mod c13;
 pub mod c14;
+pub mod c15;
 pub mod c16;
 pub mod c17;
 
@@ -41,6 +42,7 @@ pub fn run(ctx: &Ctx) -> Option<Report> {
         "C12" => c12::run(ctx),
         "C13" => c13::run(ctx),
         "C14" => c14::run(ctx),
+        "C15" => c15::run(ctx),
         "C16" => c16::run(ctx),
         "C17" => c17::run(ctx),
         _ => return None,
@@ -64,6 +66,7 @@ pub fn replay(property: &str, case: &Json, ctx: &Ctx) -> Option<Report> {
         "C12" => c12::replay(case),
         "C13" => c13::run(ctx),
         "C14" => c14::run(ctx),
+        "C15" => c15::replay(case, ctx),
         "C16" => c16::replay(case),
         "C17" => c17::replay(case),
         _ => return None,
